@@ -164,7 +164,7 @@ def search_call(e):
     return None
 
 
-def classify_marker(ctx, ci, fi, regex):
+def classify_marker(ctx, ci, fi, regex, facts=()):
     repo = ctx.repo
     w = repo.walker(inline_depth=ctx.depth, max_paths=ctx.max_paths, split_ifexp=True)
     w.strip_asserts = True          # a "delimiter found" test written as an assert is no test under python -O
@@ -180,10 +180,12 @@ def classify_marker(ctx, ci, fi, regex):
     rule_c, rule_d = 'C06-marker-search', 'C06-include-consume'
     nflag = 0
     seen_window, seen_open = False, False
+    n_shortcut = n_live = 0
     for p in paths:
         if p.raises():
             continue
-        gt = gtexts(p)
+        n_live += 1
+        gt = list(gtexts(p)) + list(facts)        # facts: what _compile tested before installing this strategy
         s = store_of(p)
         label = '[%s] %s' % ('regex' if regex else 'bytes', fi.qual)
         if s is None:
@@ -205,6 +207,7 @@ def classify_marker(ctx, ci, fi, regex):
                 ctx.holds(rule_d, fi, st, 'end-of-string marker: takes everything, cursor at the end', s.lineno, clause='d')
             else:
                 ctx.violation(rule_d, fi, st, 'the end-of-string shortcut does not take exactly the rest of the input', s.lineno, clause='d')
+            n_shortcut += 1
             continue
         if hi is None:
             ctx.violation(rule_d, fi, '%s stores raw[offset:]' % label, 'a delimited field takes everything to the end of the input', s.lineno, clause='d')
@@ -302,7 +305,9 @@ def classify_marker(ctx, ci, fi, regex):
             ctx.violation(rule_d, fi, st, 'expected ' + want, s.lineno, clause='d')
         else:
             ctx.undecided(rule_d, fi, st, want, s.lineno, clause='d')
-    if not (seen_window and seen_open):
+    if n_live and n_shortcut == n_live:
+        pass        # a strategy that serves the end-of-string marker only: nothing is searched
+    elif not (seen_window and seen_open):
         ctx.violation(rule_c, fi, '[%s] %s' % ('regex' if regex else 'bytes', fi.qual),
                       'expected both a windowed search path (search_buffer_length set) and an unbounded one; found windowed=%s open=%s' % (seen_window, seen_open), fi.node.lineno, clause='c')
     return nflag
@@ -324,6 +329,7 @@ def check_selection(ctx):
     w = repo.walker()
     paths = w.paths(comp.node, cls=ci)
     kinds = {}
+    extra = {}
     for p in paths:
         gt = gtexts(p)
         if p.raises():
@@ -358,6 +364,8 @@ def check_selection(ctx):
             ctx.undecided(rule, comp, label, 'cannot tell which kind of size / marker selects %s' % target, comp.node.lineno, clause='a')
             continue
         kinds.setdefault(k, set()).add(target)
+        # further tests on the same path (beyond the kind tests) that tell strategies of one kind apart
+        extra.setdefault((k, target), []).append(frozenset(g for g in gt if not _is_kind_test(g)))
     # the search window is the class-level option
     win = [e for p in paths for e in p.effects if e.kind == 'store_attr' and canon(e.obj) == 'self' and canon(e.value) == "bisturi_conf.get('search_buffer_length')"]
     global WINDOW_ATTR
@@ -386,12 +394,31 @@ def check_selection(ctx):
         ctx.holds(rule, comp, 'unsupported kinds -> assert False', 'both selection chains end in assert False', comp.node.lineno, clause='a')
     else:
         ctx.violation(rule, comp, 'unsupported kinds', 'an unsupported size / marker kind is silently accepted (no assert False at the end of the chain)', comp.node.lineno, clause='a')
+    multi = {}
     for k, targets in sorted(kinds.items()):
         if len(targets) != 1:
-            ctx.violation(rule, comp, '%s -> %s' % (k, sorted(targets)), 'one kind selects several strategies', comp.node.lineno, clause='a')
+            # one kind served by several strategies: each is checked under the further tests that select it
+            split = []
+            for t in sorted(targets):
+                sets = extra.get((k, t), [])
+                common = frozenset.intersection(*sets) if sets else frozenset()
+                split.append((t, sorted(common)))
+            if None not in targets and all(c for _, c in split) and k in ('bytes-marker', 'regex-marker'):
+                multi[k] = split
+                ctx.holds(rule, comp, '%s -> %s' % (k, ['%s if %s' % (t, ' and '.join(c)[:80]) for t, c in split]), 'kind split over strategies by further tests; each is checked under its tests', comp.node.lineno, clause='a')
+            else:
+                ctx.undecided(rule, comp, '%s -> %s' % (k, sorted(map(str, targets))), 'one kind selects several strategies and the rule cannot tell what tells them apart', comp.node.lineno, clause='a')
         else:
             ctx.holds(rule, comp, '%s -> %s' % (k, sorted(targets)[0]), 'kind selects one strategy', comp.node.lineno, clause='a')
-    return {k: sorted(v)[0] for k, v in kinds.items() if len(v) == 1}
+    out = {k: sorted(v)[0] for k, v in kinds.items() if len(v) == 1}
+    out['__multi__'] = multi
+    return out
+
+
+def _is_kind_test(g):
+    g = g[4:] if g.startswith('not ') else g
+    return g.startswith(('isinstance(self.byte_count', 'isinstance(self.until_marker', 'hasattr(self.until_marker', 'callable(self.byte_count',
+                         'self.byte_count is', 'self.until_marker is'))
 
 
 def check_pack_and_ctor(ctx):
@@ -521,12 +548,14 @@ def check(ctx):
         ctx.unit('strategies')
         classify_sized(ctx, ci, fi, 'callable' if kind == 'expression' else kind)
     for kind, regex in (('bytes-marker', False), ('regex-marker', True)):
-        t = sel.get(kind)
-        if t is None:
-            continue
-        fi = repo.method(ci, t)
-        ctx.unit('strategies')
-        nflag += classify_marker(ctx, ci, fi, regex)
+        targets = [(sel[kind], ())] if sel.get(kind) is not None else sel.get('__multi__', {}).get(kind, [])
+        for t, facts in targets:
+            fi = repo.method(ci, t)
+            if fi is None:
+                ctx.undecided('C06-marker-search', (ci.file, 'Data'), t, 'strategy method not found')
+                continue
+            ctx.unit('strategies')
+            nflag += classify_marker(ctx, ci, fi, regex, facts)
     check_pack_and_ctor(ctx)
     # the generated code reads constant-size byte strings as strictly as the field loop
     from .c04 import check_templates_decode
